@@ -4,8 +4,9 @@
 // std:: distribution the wrappers are documented to wrap.  Nothing is sampled: the
 // "random" numbers are a deterministic function of the enumerated seed.
 //
-// This TU: the generators themselves and uniform_int with plain integer result types.
-// C20_wrapped.cpp: strong-typedef / enum result types, uniform_real, normal.
+// This TU: the generators themselves and uniform_int with plain signed result types.
+// C20_unsigned.cpp: plain unsigned result types.  C20_wrapped.cpp: strong-typedef result types.
+// C20_enum.cpp: enum result types and make_uniform_enum.  C20_real.cpp: uniform_real, normal.
 // C20_container.cpp: index / container factories, uniform_container, shared generators,
 // param() setter.
 #include "C20_common.hpp"
@@ -98,16 +99,16 @@ void c20::register_plain()
   plain_shards<short>("short");
   plain_shards<int>("int");
   plain_shards<long>("long");
-  plain_shards<unsigned short>("unsigned short");
-  plain_shards<unsigned>("unsigned");
-  plain_shards<unsigned long>("unsigned long");
   plain_shards<long long>("long long");
 }
 
 int main(int argc, char **argv)
 {
   c20::register_plain();
+  c20::register_unsigned();
   c20::register_wrapped();
+  c20::register_enum();
+  c20::register_real();
   c20::register_container();
   return vrt::run(argc, argv);
 }
